@@ -104,6 +104,10 @@ class _MemStore(Store):
 
 def body_history(threshold, qs, summaries, second_kind, writes, kindf, text):
     shape_a, shape_b = ctx.PART
+    if ctx.kf("C10-param-filter-index") and (shape_a.startswith("param") or shape_b.startswith("param")) and len(qs) > threshold:
+        # known finding: once the index is consulted for a filter containing a param-filter, _get_index asserts
+        # (the query then fails instead of answering like the naive path); before that the pair is checked as usual
+        return (True, "known")
     store = _MemStore(threshold)
     # member 1: a calendar whose SUMMARY changes with every write; member 2: calendar / unparseable / vCard
     version = 0
